@@ -114,11 +114,12 @@ def default_targets(prop: str):
     if n <= 3: t += ['Gen/ModbusGen.vo', 'Gen/ProtoGen.vo']
     if n <= 10: t += ['Model/Proto.vo']
     if n == 7 or n == 8: t += ['Gen/ModbusGen.vo', 'Gen/ProtoGen.vo']
-    if n == 9: t += ['Model/FailCount.vo', 'Proofs/InvProgRefine.vo']
+    if n == 9: t += ['Model/FailCount.vo', 'Model/InvProgInst.vo']
     if n in (11, 12, 13, 16): t += ['Model/Sensors.vo', 'Gen/TablesGen.vo']
     if n in (14, 15): t += ['Model/ETCaps.vo']
     if n in (17, 19): t += ['Model/Sensors.vo', 'Model/Settings.vo', 'Gen/SettingsGen.vo']
-    if n == 19: t += ['Proofs/ModesProofs.vo']
+    if n == 19: t += ['Model/ModesInst.vo']
+    if n == 20: t += ['Model/TwoObjInst.vo']
     return t
 
 
@@ -226,6 +227,8 @@ def run_check(prop: str, tier: str, seed: int) -> int:
             if rc != 0:
                 ctx.coq_ok = False
                 ctx.coq_error = coq_error_summary(out)
+                # the executable model files the stages evaluate are still wanted when a theorem no longer checks
+                sh(['make', '-j16', '-k'] + list(spec.get('coq_targets', default_targets(prop))), cwd=COQ, timeout=1500)
                 for name, msg in gen_failures:
                     if f'Gen/{name}.v' in out or f'GENERATION_FAILED_{name}' in out:
                         ctx.gen_error = f'{name}: {msg}'[:600]
